@@ -24,3 +24,5 @@ def check(ctx, prog):
     shaving.rule_shaving_loop(ctx, prog)
     propagators.rule_sole_candidate(ctx, prog)  # the one filtering clause decided here: a 'sole candidate' is counted against the bound it is forced to
     kinds.rule_index_kind(ctx, prog)  # a number is a variable index or a shared-domain index, not both
+    model.rule_split(ctx, prog)  # scope: the parts enumerated by the multiprocessing solver stay inside (and exactly cover) the declared domain
+    model.rule_decision_cover(ctx, prog)
